@@ -199,3 +199,5 @@ def run(ctx):
     ctx.cov["rule"] = ("T1 grid: (start,stop,step,dim) boxes, generated vs Python; leg A: random COO (rank 0-4) x random index tuple from the "
                        "grammar, model vs implementation on representation; leg C: COO/GCXS/DOK vs NumPy incl. scalar rule and IndexError; "
                        "non-trivial = array stores at least one element; distinct by content hash")
+    import extra_ops  # operation tables closing the measured coverage gaps (tools/coverage_audit.py; coverage/API_COVERAGE.md)
+    extra_ops.run(ctx, PID)
